@@ -17,3 +17,8 @@ int fx_shift_bad_boundary(uint64_t a, size_t n, uint64_t *r) { if (n > 8) return
 
 int fx_width_ok(bn_digit_t a, bn_digit_t b) { bn_digit_t s = (bn_digit_t)(a + b); return (s < a); }
 int fx_width_bad(bn_digit_t a, bn_digit_t b) { return ((a + b) < a); }
+
+void fx_carry_ok(uint64_t *a, const uint64_t *b, size_t n) { size_t i; uint64_t crr = 0, ai, tm; for (i = 0; i < n; i ++) { ai = a[i] + crr; tm = b[i];
+  crr = ((ai < crr) ? 1 : 0); if (0 != tm) { ai += tm; if (ai < tm) { crr = 1; } } a[i] = ai; } }
+void fx_carry_bad(uint64_t *a, const uint64_t *b, size_t n) { size_t i; uint64_t crr = 0, ai, tm; for (i = 0; i < n; i ++) { ai = a[i] + crr; tm = b[i];
+  crr = ((ai < crr) ? 1 : 0); if (0 != tm) { ai += tm; crr = ((ai < tm) ? 1 : 0); } a[i] = ai; } }
